@@ -376,11 +376,15 @@ def evaluate__pow(self: XPathFunction, context: ta.ContextType = None) -> ta.One
     if x is None:
         return []
 
-    # The arguments are promoted to xs:double (e.g. 0.0 ** 0.0 is not defined for decimals)
-    if isinstance(x, decimal.Decimal):
-        x = float(x)
-    if isinstance(y, decimal.Decimal):
-        y = float(y)
+    # The arguments are promoted to xs:double (e.g. 0.0 ** 0.0 is not defined for decimals
+    # and the power of two integers is computed exactly, without a limit of time and size)
+    try:
+        if isinstance(x, (int, decimal.Decimal)) and not isinstance(x, bool):
+            x = float(x)
+        if isinstance(y, decimal.Decimal):
+            y = float(y)
+    except OverflowError as err:
+        raise self.error('FOAR0002', err) from None
 
     if not x and y < 0:
         return math.copysign(float('inf'), x) if (y % 2) == 1 else float('inf')
